@@ -391,9 +391,36 @@ func (fc *FnCtx) heapGet(st *State, key, sort string) string {
 	if t, ok := st.heap[key]; ok {
 		return t
 	}
-	t := fc.genDefault(st.gen, key)
+	gen := st.gen
+	if gen > 0 && fc.survivesUnknownCode(key) {
+		// a key that unknown code cannot change (stable ghost, construction-only field) and that has not been touched so far
+		// in this function still has its entry value: havocAll only keeps the keys it already knows
+		gen = 0
+	}
+	t := fc.genDefault(gen, key)
 	st.heap[key] = t
 	return t
+}
+
+// survivesUnknownCode: the classes of heap keys havocAll keeps (see there).
+func (fc *FnCtx) survivesUnknownCode(key string) bool {
+	if key == "ghost:chancap" {
+		return true
+	}
+	if strings.HasPrefix(key, "ghost:") {
+		name := strings.TrimPrefix(key, "ghost:")
+		if i := strings.IndexAny(name, ".@"); i >= 0 {
+			name = name[:i]
+		}
+		if g, ok := fc.e.specs.Ghosts[name]; ok && g.Stable {
+			return true
+		}
+		return false
+	}
+	if m := initOnlyKeyRe.FindString(key); m != "" && fc.e.initOnly[m] {
+		return true
+	}
+	return false
 }
 
 func (fc *FnCtx) heapSet(st *State, key, sort, term string) {
